@@ -178,6 +178,25 @@ def run(ctx):
                 ctx.violation("C10:SparsePCA-no-penalty:components", "SparsePCA(alpha=0): components differ from EOF (max diff %.3g)" % float(np.abs(B * align(A, B) - A).max()), replay)
             if not Z.same(b.explained_variance().values, a.explained_variance().values, 1e-4):
                 ctx.violation("C10:SparsePCA-no-penalty:explained-variance", "SparsePCA(alpha=0): explained variance differs from EOF", replay)
+            # the randomised route in row blocks (n_blocks > 1, a number of samples that is no multiple of it): every sample is read
+            nb = int(rng.integers(2, 5))
+            if n % nb == 0:
+                nb = nb + 1 if n % (nb + 1) else nb + 2
+            ctx.case(("spca0-blocks", n, p1, k, nb, i), nontrivial=True, tag="SparsePCA(alpha=0, randomized, n_blocks)=EOF")
+            b = xe.single.SparsePCA(n_modes=k, alpha=0.0, beta=0.0, solver="randomized", oversample=5, n_subspace=2, n_blocks=nb, random_state=7, max_iter=2000, tol=1e-14)
+            try:
+                b.fit(X, "time")
+                A, B = a.components().transpose("x", "mode").values, b.components().transpose("x", "mode").values
+            except ValueError as e_:
+                if "equal division" not in str(e_):
+                    raise
+                ctx.dist["c10:spca-row-blocks:refused (array split)"] += 1     # a refusal, not a result
+                A = B = np.zeros((1, 1))
+                b = a
+            if not Z.same(B * align(A, B), A, 1e-4) or not Z.same(b.explained_variance().values, a.explained_variance().values, 1e-4):
+                ctx.violation("C10:SparsePCA-no-penalty:row-blocks", "SparsePCA(alpha=0, solver='randomized', n_blocks=%d) on %d samples: components / explained variance differ from EOF "
+                              "(max diff %.3g / %r vs %r)" % (nb, n, float(np.abs(B * align(A, B) - A).max()), b.explained_variance().values[:3], a.explained_variance().values[:3]),
+                              dict(replay, n_blocks=nb))
         except Exception as e_:
             ctx.violation("C10:SparsePCA-no-penalty:error", "SparsePCA(alpha=0) raised %r" % (e_,), replay)
         # 8. PCA pre-reduction keeping all modes equals no pre-reduction
